@@ -4,7 +4,7 @@
    PAccept/PReject, Advance on it, `glog` the same list on the Spec side (clock, outcome log).
    `coin_lt m n2 d` is the float64 test r.Float64() < dropRatio for the coin m/2^53; coin_sound is
    its only assumed property (a double below fl(r) is below r). *)
-From God Require Import Base.Prelude C09.RW C09.Spec C01.GenEnv C01.Spec C01.Model C01.Proofs C01.Exec C01.Link.
+From God Require Import Base.Prelude C09.RW C09.Spec C09.Integ C01.GenEnv C01.Spec C01.Model C01.Proofs C01.Exec C01.Link.
 From GodGen Require C01_Gen.
 Local Open Scope Z_scope.
 
@@ -97,6 +97,22 @@ Theorem c01_benign_never_open : forall which arg, (which <= 2)%nat -> (which = 0
   benign which arg = true -> pred which arg = true.
 Proof. exact benign_pred. Qed.
 Print Assumptions c01_benign_never_open.
+
+(* HTTP: BreakerHandler marks Accept iff the Code held by response.WithCodeResponseWriter is < 500; for every
+   way a handler can produce a response without panicking (WriteHeader(c), Write without WriteHeader, nothing
+   written, streaming with Flush) that is exactly "the status the client gets is below 500" (implicit 200s
+   included); a panic converted by RecoverHandler (inside, api/engine.go order) is a failure mark *)
+Theorem c01_http_mark : 
+  (forall g s, panics s = false -> 100 <= http_status g s -> http_mark g s = (http_status g s <? 500)) /\
+  (forall s, panics s = true -> http_mark true s = false).
+Proof. exact http_mark_spec. Qed.
+Print Assumptions c01_http_mark.
+
+(* RPC breaker interceptors (server and client): the mark is codes.Acceptable of the returned error; a
+   benign code returned is a success mark *)
+Theorem c01_rpc_benign : forall c, 0 <= c <= 16 -> benign 5 c = true -> rpc_mark c = true.
+Proof. exact rpc_benign. Qed.
+Print Assumptions c01_rpc_benign.
 
 (* ---------------- non-vacuity ---------------- *)
 Example c01_rejection_happens :
